@@ -14,7 +14,7 @@ import EngineModel.Driver.Loop
 import EngineModel.Driver.Text
 import EngineModel.Api.CratesV1Wf
 import EngineModel.Spec.Members
-import EngineModel.TracksV1.Types
+import EngineModel.Spec.PathParts
 
 open EngineModel EngineModel.Text EngineModel.Pure.Detect
 
@@ -162,6 +162,7 @@ structure St where
   tvars : List (String × Id) := []
   dead : Bool := false
   lastOp : String := "create"
+  removed : List Id := []      -- ids of crates removed in this history and not handed out again since
 
 inductive IRes where
   | ok (id : Option Id)
@@ -211,7 +212,13 @@ def judgeForest (st : St) (op : Forest.Op) (r : IRes)
     | .accept f' | .either f' =>
       if isCreate && !Forest.freshId f newId then
         viol st "forest.id-collision" s!"new crate got id {newId} of a live crate"
-      else (onOk { st with forest := f' } f f', "ok")
+      else
+        let gone := f.ids.filter (fun i => !f'.ids.contains i)
+        let st1 := onOk { st with forest := f', removed := (st.removed ++ gone).filter (· != newId || !isCreate) } f f'
+        -- recorded finding `v1-removed-crate-id-reissued`: reported, but the oracle goes on judging
+        if isCreate && st.removed.contains newId then
+          (st1, s!"known forest.removed-id-reissued | after {st.lastOp}: the new crate got id {newId}, the id of a crate removed earlier in this history (handles to the removed crate now designate the new one)")
+        else (st1, "ok")
 
 def judgeMembers (st : St) (op : Members.Op) (r : IRes) : St × String :=
   match r with
@@ -321,7 +328,8 @@ def checkMembersObs (f : Forest.Forest) (s : Members.State) (o : IObs) : Option 
       chk (ic.tracks.getD [] == []) "members.removed.tracks" (fun _ => s!"removed crate {ic.id} still lists tracks {showOL ic.tracks}")))
 
 /-- C11, derived per-track columns: `filename` is the file-name part of `path`, and the file-extension
-MetaData row (type 13) holds the extension of that file name (NULL when there is none). -/
+MetaData row (type 13) holds the extension of that file name (NULL when there is none) — judged with the
+independent Spec `Spec.PathParts` (longest suffix without '/' resp. '.'), not with the model's rfind/substr. -/
 def parseOptText (s : String) : Option (Option Name) :=
   if s == "null" then some none else (parseText s).map some
 
@@ -342,8 +350,8 @@ def checkTrackCols (tr : List (Id × Option Name × Option Name)) (ext : List (I
     match path with
     | none => []
     | some p =>
-      let want := TracksV1.getFilename p
-      let wantExt := TracksV1.getExtension want
+      let want := PathParts.fileNamePart p
+      let wantExt := PathParts.extensionPart want
       let got := (ext.filter (·.1 == id)).map (·.2)
       [ chk (fname == some want) "wfraw.track-filename"
           (fun _ => s!"track {id}: path {hexBytes p}, filename {repr (fname.map hexBytes)}, expected {hexBytes want}"),
@@ -468,15 +476,12 @@ def stepLine (st : St) (cmd : String) (args : List String) : St × String :=
       match runP pObs body with
       | none => viol st "protocol" "unparsable observation"
       | some o =>
-        match checkForestObs st.forest o with
-        | some (t, d) => viol st t d
-        | none =>
-          match checkMembersObs st.forest st.members o with
-          | some (t, d) => viol st t d
-          | none =>
-            match checkWf o with
-            | some (t, d) => viol st t d
-            | none => (st, "ok")
+        -- the three families are judged independently; every failing one is named (first failing check of each)
+        match [checkForestObs st.forest o, checkMembersObs st.forest st.members o, checkWf o].filterMap id with
+        | [] => (st, "ok")
+        | (t, d) :: rest =>
+          let (st', line) := viol st t d
+          (st', line ++ String.join (rest.map fun (t, d) => s!" ## {t} | {d}"))
     | _ => viol st "protocol" "observation failed"
   | _, _ => (st, "ok")
 
